@@ -15,6 +15,7 @@
   (`readTargets_eq` etc. are `rfl`).
 -/
 import LDEval.Proofs.CodecLemmas
+import LDEval.Proofs.AuditCodecEntry
 
 namespace LD.C17
 
@@ -1132,5 +1133,820 @@ example : (readClause (.obj [("attribute", .str "/a/b"), ("contextKind", .str "o
 #print axioms decodeFlag_ok_iff
 #print axioms member_error_rejects
 #print axioms wrong_type_rejected_on
+
+/-! ## Strengthened statements (theorem audit) -/
+
+open LD.Entry
+
+/-! ### #57: the value that accompanies an error, and the destination of the hook -/
+
+
+/-- **C17 `error_zero` (flags).**  Whenever `unmarshalFeatureFlagFromBytes` — hence the
+serialization object's `UnmarshalFeatureFlag` — reports an error, the flag it returns with it is
+Go's `FeatureFlag{}`, not the half-built value; and it reports an error exactly when the
+tree-level decoder rejects the document. -/
+theorem error_zero (rx : RegexOracle) (pv : Partial) (data : J) :
+    ((unmarshalFeatureFlagFromBytes rx pv data).err = true ↔ Codec.decodeFlag rx data = .error ()) ∧
+    ((unmarshalFeatureFlagFromBytes rx pv data).err = true →
+      unmarshalFeatureFlagFromBytes rx pv data = ⟨zeroFlag, true⟩) ∧
+    Serialization.unmarshalFeatureFlag rx pv data = unmarshalFeatureFlagFromBytes rx pv data := by
+  refine ⟨?_, ?_, rfl⟩ <;> rw [fromBytes_eq] <;> cases h : decodeFlag rx data <;> simp
+
+/-- **C17 `success_is_preprocessed_decoding` (flags).**  When no error is reported the returned
+flag is `PreprocessFlag` applied to what the reader built from the document, i.e. the model's
+`decodeFlag` result — for the bytes function, the serialization object and the hook alike. -/
+theorem success_is_preprocessed_decoding (rx : RegexOracle) (pv : Partial) (dest : Flag) (data : J)
+    (h : (unmarshalFeatureFlagFromBytes rx pv data).err = false) :
+    ∃ f0, Codec.readFlag data = .ok f0 ∧
+      Codec.decodeFlag rx data = .ok (preprocessFlag rx f0) ∧
+      unmarshalFeatureFlagFromBytes rx pv data = ⟨preprocessFlag rx f0, false⟩ ∧
+      FeatureFlag.unmarshalJSON rx pv dest data = ⟨preprocessFlag rx f0, false⟩ := by
+  unfold FeatureFlag.unmarshalJSON
+  rw [fromBytes_eq] at h ⊢
+  cases hd : decodeFlag rx data with
+  | error e => rw [hd] at h; simp at h
+  | ok g =>
+    obtain ⟨f0, hf0, rfl⟩ := (decodeFlag_ok_iff rx data g).mp hd
+    exact ⟨f0, hf0, rfl, rfl, rfl⟩
+
+/-- **C17 `hook_leaves_destination` (flags).**  `(*FeatureFlag).UnmarshalJSON` returns the same
+error as `unmarshalFeatureFlagFromBytes`; on error `*f` is what it was before the call, whatever it
+was and whatever the reader had half-built; without an error `*f` is the decoded flag and nothing
+of the old `*f` survives. -/
+theorem hook_leaves_destination (rx : RegexOracle) (pv : Partial) (dest : Flag) (data : J) :
+    (FeatureFlag.unmarshalJSON rx pv dest data).err = (unmarshalFeatureFlagFromBytes rx pv data).err ∧
+    ((FeatureFlag.unmarshalJSON rx pv dest data).err = true →
+      (FeatureFlag.unmarshalJSON rx pv dest data).value = dest) ∧
+    ((FeatureFlag.unmarshalJSON rx pv dest data).err = false →
+      (FeatureFlag.unmarshalJSON rx pv dest data).value =
+        (unmarshalFeatureFlagFromBytes rx pv data).value) := by
+  unfold FeatureFlag.unmarshalJSON
+  generalize unmarshalFeatureFlagFromBytes rx pv data = r
+  obtain ⟨v, e⟩ := r
+  cases e <;> simp
+
+/-- **C17 `decode_total` with content.**  For every document, every half-built value and every
+old destination there are exactly two outcomes, and they are decided by the tree-level reader:
+either it rejects the document — then the bytes function returns (`FeatureFlag{}`, error) and the
+hook leaves `*f` alone — or it accepts it with `f0` — then both deliver `PreprocessFlag(f0)`
+without an error. -/
+theorem decode_total_entry (rx : RegexOracle) (pv : Partial) (dest : Flag) (data : J) :
+    (Codec.readFlag data = .error () ∧
+      unmarshalFeatureFlagFromBytes rx pv data = ⟨zeroFlag, true⟩ ∧
+      FeatureFlag.unmarshalJSON rx pv dest data = ⟨dest, true⟩ ∧
+      unmarshalFeatureFlagFromReader rx pv data = ⟨pv.flag data, true⟩) ∨
+    (∃ f0, Codec.readFlag data = .ok f0 ∧
+      unmarshalFeatureFlagFromBytes rx pv data = ⟨preprocessFlag rx f0, false⟩ ∧
+      FeatureFlag.unmarshalJSON rx pv dest data = ⟨preprocessFlag rx f0, false⟩ ∧
+      unmarshalFeatureFlagFromReader rx pv data = ⟨preprocessFlag rx f0, false⟩) := by
+  rw [hook_eq, fromBytes_eq]
+  unfold decodeFlag
+  cases h : readFlag data with
+  | error e => exact .inl ⟨rfl, rfl, rfl, fromReader_error rx pv data h⟩
+  | ok f0 => exact .inr ⟨f0, rfl, rfl, rfl, fromReader_ok rx pv data f0 h⟩
+
+theorem readFlag_error_iff (doc : J) :
+    Codec.readFlag doc = .error () ↔
+      (∀ kvs, doc ≠ .obj kvs) ∨
+      ∃ pre n v post a, doc = .obj (pre ++ (n, v) :: post) ∧
+        Codec.objLoop readFlagProp {} pre = .ok a ∧ readFlagProp a n v = .error () := by
+  cases doc with
+  | obj kvs =>
+    have : Codec.readFlag (.obj kvs) = .error () ↔ Codec.objLoop readFlagProp {} kvs = .error () := by
+      show (objLoop readFlagProp {} kvs >>= _) = _ ↔ _
+      cases hl : objLoop readFlagProp {} kvs with
+      | error e => simp [bind, Except.bind]
+      | ok a =>
+        simp only [D_ok_bind]
+        constructor
+        · intro h'; split at h' <;> cases h'
+        · intro h'; cases h'
+    rw [this, objLoop_error_iff]
+    constructor
+    · rintro ⟨pre, n, v, post, a, rfl, hp, hf⟩
+      exact .inr ⟨pre, n, v, post, a, rfl, hp, hf⟩
+    · rintro (h' | ⟨pre, n, v, post, a, he, hp, hf⟩)
+      · exact absurd rfl (h' kvs)
+      · cases he; exact ⟨pre, n, v, post, a, rfl, hp, hf⟩
+  | _ =>
+    all_goals
+      constructor
+      · intro _; exact .inl (fun kvs h' => by cases h')
+      · intro _; rfl
+
+
+/-! ### The same for segments -/
+
+/-- **C17 `error_zero` (segments).**  An error from `unmarshalSegmentFromBytes` / the serialization
+object's `UnmarshalSegment` comes with Go's `Segment{}`, and occurs exactly when the tree-level
+decoder rejects the document. -/
+theorem error_zero_segment (rx : RegexOracle) (pv : Partial) (data : J) :
+    ((unmarshalSegmentFromBytes rx pv data).err = true ↔ Codec.decodeSegment rx data = .error ()) ∧
+    ((unmarshalSegmentFromBytes rx pv data).err = true →
+      unmarshalSegmentFromBytes rx pv data = ⟨zeroSegment, true⟩) ∧
+    Serialization.unmarshalSegment rx pv data = unmarshalSegmentFromBytes rx pv data := by
+  refine ⟨?_, ?_, rfl⟩ <;> rw [seg_fromBytes_eq] <;> cases h : decodeSegment rx data <;> simp
+
+/-- **C17 `hook_leaves_destination` (segments).** -/
+theorem hook_leaves_destination_segment (rx : RegexOracle) (pv : Partial) (dest : Segment) (data : J) :
+    (Segment.unmarshalJSON rx pv dest data).err = (unmarshalSegmentFromBytes rx pv data).err ∧
+    ((Segment.unmarshalJSON rx pv dest data).err = true →
+      (Segment.unmarshalJSON rx pv dest data).value = dest) ∧
+    ((Segment.unmarshalJSON rx pv dest data).err = false →
+      (Segment.unmarshalJSON rx pv dest data).value = (unmarshalSegmentFromBytes rx pv data).value) := by
+  unfold Segment.unmarshalJSON
+  generalize unmarshalSegmentFromBytes rx pv data = r
+  obtain ⟨v, e⟩ := r
+  cases e <;> simp
+
+/-- **C17 `decode_total` with content (segments).** -/
+theorem decode_total_entry_segment (rx : RegexOracle) (pv : Partial) (dest : Segment) (data : J) :
+    (Codec.readSegment data = .error () ∧
+      unmarshalSegmentFromBytes rx pv data = ⟨zeroSegment, true⟩ ∧
+      Segment.unmarshalJSON rx pv dest data = ⟨dest, true⟩ ∧
+      unmarshalSegmentFromReader rx pv data = ⟨pv.segment data, true⟩) ∨
+    (∃ s0, Codec.readSegment data = .ok s0 ∧
+      unmarshalSegmentFromBytes rx pv data = ⟨preprocessSegment rx s0, false⟩ ∧
+      Segment.unmarshalJSON rx pv dest data = ⟨preprocessSegment rx s0, false⟩ ∧
+      unmarshalSegmentFromReader rx pv data = ⟨preprocessSegment rx s0, false⟩) := by
+  rw [seg_hook_eq, seg_fromBytes_eq]
+  unfold decodeSegment
+  cases h : readSegment data with
+  | error e => exact .inl ⟨rfl, rfl, rfl, seg_fromReader_error rx pv data h⟩
+  | ok s0 => exact .inr ⟨s0, rfl, rfl, rfl, seg_fromReader_ok rx pv data s0 h⟩
+
+/-- **C17 `success_is_preprocessed_decoding` (segments).** -/
+theorem success_is_preprocessed_decoding_segment (rx : RegexOracle) (pv : Partial) (dest : Segment)
+    (data : J) (h : (unmarshalSegmentFromBytes rx pv data).err = false) :
+    ∃ s0, Codec.readSegment data = .ok s0 ∧
+      unmarshalSegmentFromBytes rx pv data = ⟨preprocessSegment rx s0, false⟩ ∧
+      Segment.unmarshalJSON rx pv dest data = ⟨preprocessSegment rx s0, false⟩ := by
+  rcases decode_total_entry_segment rx pv dest data with ⟨_, h1, _⟩ | ⟨s0, h0, h1, h2, _⟩
+  · rw [h1] at h; cases h
+  · exact ⟨s0, h0, h1, h2⟩
+
+/-! ### The paths that do NOT protect the caller (as the code has them) -/
+
+/-- The streaming function and the easyjson hook hand out the half-built, unpreprocessed value on
+error — the easyjson hook by overwriting `*f` with it: "leaves the destination untouched" is a
+property of the encoding/json hook only.  (The caller is expected to look at the reader / lexer.) -/
+theorem reader_paths_expose_partial (rx : RegexOracle) (pv : Partial) (dest : Flag) (doc : J)
+    (h : Codec.readFlag doc = .error ()) :
+    unmarshalFeatureFlagFromJSONReader rx pv doc = ⟨pv.flag doc, true⟩ ∧
+    FeatureFlag.unmarshalEasyJSON rx pv dest doc = ⟨pv.flag doc, true⟩ :=
+  ⟨fromReader_error rx pv doc h, fromReader_error rx pv doc h⟩
+
+/-! ### Non-vacuity: a rejected document with a non-trivial half-built value and destination -/
+
+/-- A document whose second member is ill-typed, a reader that had already stored the key, and a
+destination that holds another flag. -/
+def exBadDoc : J := .obj [("key", .str "half"), ("on", .num 1), ("version", .num 3)]
+def exPartial : Partial := { flag := fun _ => { key := "half" }, segment := fun _ => { key := "half" } }
+def exDest : Flag := { key := "old", on := true, fmeta := { version := 9 } }
+
+example : Codec.readFlag exBadDoc = .error () := rfl
+example (rx : RegexOracle) : unmarshalFeatureFlagFromBytes rx exPartial exBadDoc = ⟨zeroFlag, true⟩ :=
+  ((error_zero rx exPartial exBadDoc).2.1) (by rw [fromBytes_eq]; rfl)
+example (rx : RegexOracle) :
+    ((FeatureFlag.unmarshalJSON rx exPartial exDest exBadDoc).value.key,
+     (FeatureFlag.unmarshalJSON rx exPartial exDest exBadDoc).value.fmeta.version,
+     (FeatureFlag.unmarshalJSON rx exPartial exDest exBadDoc).err) = ("old", 9, true) := by
+  rw [hook_eq]; rfl
+/-- … whereas the reader-level paths return the half-built flag. -/
+example (rx : RegexOracle) :
+    (FeatureFlag.unmarshalEasyJSON rx exPartial exDest exBadDoc).value.key = "half" := by
+  rw [(reader_paths_expose_partial rx exPartial exDest exBadDoc rfl).2]; rfl
+/-- An accepted document replaces the destination completely (hypothesis of
+`success_is_preprocessed_decoding` satisfied by `exDoc`, which has rules-free but non-empty content). -/
+example (rx : RegexOracle) : (unmarshalFeatureFlagFromBytes rx exPartial exDoc).err = false := by
+  rw [fromBytes_eq]; rfl
+example (rx : RegexOracle) :
+    ((FeatureFlag.unmarshalJSON rx exPartial exDest exDoc).value.key,
+     (FeatureFlag.unmarshalJSON rx exPartial exDest exDoc).value.fmeta.version) = ("f", 7) := by
+  rw [hook_eq]; rfl
+
+
+/-! ### #59: an omitted property equals its default — nested objects
+
+For every nested object type: a member carrying the property's default value, at any position where
+no member of the same name stands before it, can be dropped without changing what is read (value
+or error).  The tables list (name, default) for every property that has a JSON default; `null` is
+listed as well where the reader accepts it.  (`migration.checkRatio` has none: absent means "no
+ratio", every number means that ratio.) -/
+
+/-- Generic: a member on which the handler is the identity at the INITIAL accumulator, not preceded
+by a member of the same name, can be dropped (handlers of different names commute). -/
+theorem objLoop_drop_default {σ} (h : σ → String → J → Codec.D σ) (hc : Codec.Comm h) (init : σ)
+    (name : String) (dflt : J) (h0 : h init name dflt = pure init) (pre post : List (String × J))
+    (hn : name ∉ pre.map (·.1)) :
+    Codec.objLoop h init (pre ++ (name, dflt) :: post) = Codec.objLoop h init (pre ++ post) := by
+  rw [Codec.objLoop_move_front h hc name dflt pre hn, objLoop_cons, h0]; rfl
+
+def prereqDefaults : List (String × J) := [("key", .str ""), ("variation", .num 0)]
+def targetDefaults : List (String × J) :=
+  [("contextKind", .str ""), ("variation", .num 0), ("values", .arr []), ("values", .null)]
+def clauseDefaults : List (String × J) :=
+  [("contextKind", .str ""), ("attribute", .str ""), ("attribute", .null), ("op", .str ""),
+   ("negate", .bool false), ("values", .arr []), ("values", .null)]
+def wvDefaults : List (String × J) :=
+  [("variation", .num 0), ("weight", .num 0), ("untracked", .bool false)]
+def rolloutDefaults : List (String × J) :=
+  [("kind", .str ""), ("contextKind", .str ""), ("bucketBy", .str ""), ("bucketBy", .null), ("seed", .null),
+   ("variations", .arr [])]
+def vrDefaults : List (String × J) := [("variation", .null), ("rollout", .null), ("rollout", .obj [])]
+def ruleDefaults : List (String × J) :=
+  [("id", .str ""), ("trackEvents", .bool false), ("variation", .null), ("rollout", .null),
+   ("rollout", .obj []), ("clauses", .arr []), ("clauses", .null)]
+def csaDefaults : List (String × J) := [("usingEnvironmentId", .bool false), ("usingMobileKey", .bool false)]
+def segTargetDefaults : List (String × J) := [("contextKind", .str ""), ("values", .arr []), ("values", .null)]
+def segRuleDefaults : List (String × J) :=
+  [("id", .str ""), ("clauses", .arr []), ("clauses", .null), ("weight", .null), ("bucketBy", .str ""),
+   ("bucketBy", .null), ("rolloutContextKind", .str "")]
+
+theorem prereqH_default : ∀ nd ∈ prereqDefaults,
+    prereqH { key := "", variation := 0 } nd.1 nd.2 = pure { key := "", variation := 0 } := by
+  intro nd hnd
+  simp only [prereqDefaults, List.mem_cons, List.not_mem_nil, or_false] at hnd
+  rcases hnd with rfl | rfl <;> first | rfl | simp [prereqH, rInt, goInt_zero]
+
+theorem targetH_default : ∀ nd ∈ targetDefaults, targetH {} nd.1 nd.2 = pure {} := by
+  intro nd hnd
+  simp only [targetDefaults, List.mem_cons, List.not_mem_nil, or_false] at hnd
+  rcases hnd with rfl | rfl | rfl | rfl <;> first | rfl | simp [targetH, rInt, goInt_zero]
+
+theorem clauseH_default : ∀ nd ∈ clauseDefaults, clauseH ({}, "") nd.1 nd.2 = pure ({}, "") := by
+  intro nd hnd
+  simp only [clauseDefaults, List.mem_cons, List.not_mem_nil, or_false] at hnd
+  rcases hnd with rfl | rfl | rfl | rfl | rfl | rfl | rfl <;> rfl
+
+theorem wvH_default : ∀ nd ∈ wvDefaults,
+    wvH { variation := 0, weight := 0 } nd.1 nd.2 = pure { variation := 0, weight := 0 } := by
+  intro nd hnd
+  simp only [wvDefaults, List.mem_cons, List.not_mem_nil, or_false] at hnd
+  rcases hnd with rfl | rfl | rfl <;> first | rfl | simp [wvH, rInt, goInt_zero]
+
+theorem rolloutH_default : ∀ nd ∈ rolloutDefaults, rolloutH ({}, "") nd.1 nd.2 = pure ({}, "") := by
+  intro nd hnd
+  simp only [rolloutDefaults, List.mem_cons, List.not_mem_nil, or_false] at hnd
+  rcases hnd with rfl | rfl | rfl | rfl | rfl | rfl <;> rfl
+
+theorem vrH_default : ∀ nd ∈ vrDefaults, vrH {} nd.1 nd.2 = pure {} := by
+  intro nd hnd
+  simp only [vrDefaults, List.mem_cons, List.not_mem_nil, or_false] at hnd
+  rcases hnd with rfl | rfl | rfl <;> rfl
+
+theorem ruleH_default : ∀ nd ∈ ruleDefaults, ruleH {} nd.1 nd.2 = pure {} := by
+  intro nd hnd
+  simp only [ruleDefaults, List.mem_cons, List.not_mem_nil, or_false] at hnd
+  rcases hnd with rfl | rfl | rfl | rfl | rfl | rfl | rfl <;> rfl
+
+theorem csaH_default : ∀ nd ∈ csaDefaults,
+    csaH { explicit := true } nd.1 nd.2 = pure { explicit := true } := by
+  intro nd hnd
+  simp only [csaDefaults, List.mem_cons, List.not_mem_nil, or_false] at hnd
+  rcases hnd with rfl | rfl <;> rfl
+
+theorem segTargetH_default : ∀ nd ∈ segTargetDefaults, segTargetH {} nd.1 nd.2 = pure {} := by
+  intro nd hnd
+  simp only [segTargetDefaults, List.mem_cons, List.not_mem_nil, or_false] at hnd
+  rcases hnd with rfl | rfl | rfl <;> rfl
+
+theorem segRuleH_default : ∀ nd ∈ segRuleDefaults, segRuleH ({}, "") nd.1 nd.2 = pure ({}, "") := by
+  intro nd hnd
+  simp only [segRuleDefaults, List.mem_cons, List.not_mem_nil, or_false] at hnd
+  rcases hnd with rfl | rfl | rfl | rfl | rfl | rfl | rfl <;> rfl
+
+/-- Prerequisite objects: `"variation": 0` / `"key": ""` equal omission. -/
+theorem omitted_is_default_prereq (nd : String × J) (hnd : nd ∈ prereqDefaults)
+    (pre post : List (String × J)) (h : nd.1 ∉ pre.map (·.1)) :
+    readPrereq (.obj (pre ++ nd :: post)) = readPrereq (.obj (pre ++ post)) :=
+  objLoop_drop_default prereqH prereqH_comm _ nd.1 nd.2 (prereqH_default nd hnd) pre post h
+
+/-- Target objects: `"variation": 0`, `"contextKind": ""`, `"values": []` equal omission. -/
+theorem omitted_is_default_target (nd : String × J) (hnd : nd ∈ targetDefaults)
+    (pre post : List (String × J)) (h : nd.1 ∉ pre.map (·.1)) :
+    readTarget (.obj (pre ++ nd :: post)) = readTarget (.obj (pre ++ post)) :=
+  objLoop_drop_default targetH targetH_comm _ nd.1 nd.2 (targetH_default nd hnd) pre post h
+
+/-- Clause objects: `"negate": false`, `"op": ""`, `"contextKind": ""`, `"attribute": ""`,
+`"values": []` equal omission. -/
+theorem omitted_is_default_clause (nd : String × J) (hnd : nd ∈ clauseDefaults)
+    (pre post : List (String × J)) (h : nd.1 ∉ pre.map (·.1)) :
+    readClause (.obj (pre ++ nd :: post)) = readClause (.obj (pre ++ post)) := by
+  show (objLoop clauseH _ _ >>= _) = (objLoop clauseH _ _ >>= _)
+  rw [objLoop_drop_default clauseH clauseH_comm _ nd.1 nd.2 (clauseH_default nd hnd) pre post h]
+
+/-- Weighted variations: `"untracked": false`, `"weight": 0`, `"variation": 0` equal omission. -/
+theorem omitted_is_default_weightedVariation (nd : String × J) (hnd : nd ∈ wvDefaults)
+    (pre post : List (String × J)) (h : nd.1 ∉ pre.map (·.1)) :
+    readWV (.obj (pre ++ nd :: post)) = readWV (.obj (pre ++ post)) :=
+  objLoop_drop_default wvH wvH_comm _ nd.1 nd.2 (wvH_default nd hnd) pre post h
+
+/-- Rollout objects (read into a fresh rollout): `"kind": ""`, `"contextKind": ""`, `"bucketBy": ""`,
+`"seed": null`, `"variations": []` equal omission. -/
+theorem omitted_is_default_rollout (nd : String × J) (hnd : nd ∈ rolloutDefaults)
+    (pre post : List (String × J)) (h : nd.1 ∉ pre.map (·.1)) :
+    Codec.readRollout {} (.obj (pre ++ nd :: post)) = Codec.readRollout {} (.obj (pre ++ post)) := by
+  rw [readRollout_eq, readRollout_eq]
+  show (objLoop rolloutH _ _ >>= _) = (objLoop rolloutH _ _ >>= _)
+  rw [objLoop_drop_default rolloutH rolloutH_comm _ nd.1 nd.2 (rolloutH_default nd hnd) pre post h]
+
+/-- The `fallthrough` object (read into a fresh value): `"variation": null`, `"rollout": null` /
+`{}` equal omission. -/
+theorem omitted_is_default_variationOrRollout (nd : String × J) (hnd : nd ∈ vrDefaults)
+    (pre post : List (String × J)) (h : nd.1 ∉ pre.map (·.1)) :
+    Codec.readVariationOrRollout {} (.obj (pre ++ nd :: post)) =
+      Codec.readVariationOrRollout {} (.obj (pre ++ post)) :=
+  objLoop_drop_default vrH vrH_comm _ nd.1 nd.2 (vrH_default nd hnd) pre post h
+
+/-- Rule objects: `"trackEvents": false`, `"id": ""`, `"variation": null`, `"rollout": null`,
+`"clauses": []` equal omission. -/
+theorem omitted_is_default_rule (nd : String × J) (hnd : nd ∈ ruleDefaults)
+    (pre post : List (String × J)) (h : nd.1 ∉ pre.map (·.1)) :
+    readFlagRule (.obj (pre ++ nd :: post)) = readFlagRule (.obj (pre ++ post)) :=
+  objLoop_drop_default ruleH ruleH_comm _ nd.1 nd.2 (ruleH_default nd hnd) pre post h
+
+/-- The `clientSideAvailability` object (into a fresh value): a `false` member equals omission. -/
+theorem omitted_is_default_clientSideAvailability (nd : String × J) (hnd : nd ∈ csaDefaults)
+    (pre post : List (String × J)) (h : nd.1 ∉ pre.map (·.1)) :
+    Codec.readClientSideAvailability {} (.obj (pre ++ nd :: post)) =
+      Codec.readClientSideAvailability {} (.obj (pre ++ post)) :=
+  objLoop_drop_default csaH csaH_comm _ nd.1 nd.2 (csaH_default nd hnd) pre post h
+
+/-- Segment target objects. -/
+theorem omitted_is_default_segmentTarget (nd : String × J) (hnd : nd ∈ segTargetDefaults)
+    (pre post : List (String × J)) (h : nd.1 ∉ pre.map (·.1)) :
+    readSegTarget (.obj (pre ++ nd :: post)) = readSegTarget (.obj (pre ++ post)) :=
+  objLoop_drop_default segTargetH segTargetH_comm _ nd.1 nd.2 (segTargetH_default nd hnd) pre post h
+
+/-- Segment rule objects: `"id": ""`, `"weight": null`, `"bucketBy": ""`, `"rolloutContextKind": ""`,
+`"clauses": []` equal omission. -/
+theorem omitted_is_default_segmentRule (nd : String × J) (hnd : nd ∈ segRuleDefaults)
+    (pre post : List (String × J)) (h : nd.1 ∉ pre.map (·.1)) :
+    readSegRule (.obj (pre ++ nd :: post)) = readSegRule (.obj (pre ++ post)) := by
+  show (objLoop segRuleH _ _ >>= _) = (objLoop segRuleH _ _ >>= _)
+  rw [objLoop_drop_default segRuleH segRuleH_comm _ nd.1 nd.2 (segRuleH_default nd hnd) pre post h]
+
+/-- Whole-document instance, three levels deep: `"negate": false` (or any other clause default) in
+any clause of any rule of a flag equals omission. -/
+theorem omitted_is_default_flag_rule_clause (nd : String × J) (hnd : nd ∈ clauseDefaults)
+    (p1 p2 : List (String × J)) (r1 r2 : List J) (q1 q2 : List (String × J)) (c1 c2 : List J)
+    (pre post : List (String × J)) (h : nd.1 ∉ pre.map (·.1)) :
+    Codec.readFlag (.obj (p1 ++ ("rules", .arr (r1 ++ .obj (q1 ++ ("clauses",
+        .arr (c1 ++ .obj (pre ++ nd :: post) :: c2)) :: q2) :: r2)) :: p2)) =
+    Codec.readFlag (.obj (p1 ++ ("rules", .arr (r1 ++ .obj (q1 ++ ("clauses",
+        .arr (c1 ++ .obj (pre ++ post) :: c2)) :: q2) :: r2)) :: p2)) := by
+  apply readFlag_congr_member
+  intro a
+  have : ∀ acc, Codec.readFlagRules acc (.arr (r1 ++ .obj (q1 ++ ("clauses",
+        .arr (c1 ++ .obj (pre ++ nd :: post) :: c2)) :: q2) :: r2)) =
+      Codec.readFlagRules acc (.arr (r1 ++ .obj (q1 ++ ("clauses",
+        .arr (c1 ++ .obj (pre ++ post) :: c2)) :: q2) :: r2)) := by
+    intro acc
+    apply readFlagRules_congr
+    apply readFlagRule_congr_member
+    intro r
+    have hc := readClauses_congr r.clauses _ _ (omitted_is_default_clause nd hnd pre post h) c1 c2
+    show (do let x ← readClauses r.clauses _; pure { r with clauses := x }) =
+      (do let x ← readClauses r.clauses _; pure { r with clauses := x })
+    rw [hc]
+  show (do let x ← readFlagRules a.flag.rules _; pure { a with flag := { a.flag with rules := x } }) =
+    (do let x ← readFlagRules a.flag.rules _; pure { a with flag := { a.flag with rules := x } })
+  rw [this]
+
+/-- Non-vacuity, and why "not preceded by the same name" is needed (the default overwrites). -/
+example : readClause (.obj [("op", .str "in"), ("negate", .bool false), ("values", .arr [.num 1])]) =
+    readClause (.obj [("op", .str "in"), ("values", .arr [.num 1])]) :=
+  omitted_is_default_clause ("negate", .bool false) (by simp [clauseDefaults]) [("op", .str "in")] _ (by decide)
+example : (readClause (.obj [("negate", .bool true), ("negate", .bool false)])).toOption.map (·.negate) = some false ∧
+    (readClause (.obj [("negate", .bool true)])).toOption.map (·.negate) = some true := by decide
+
+
+/-! ### #60: unknown properties at ANY depth, in one statement
+
+`pruneFlag` / `pruneSegment` delete every member whose name the reader of the enclosing object does
+not know — at the top level, in every prerequisite, target, rule, clause, rollout, weighted
+variation, `fallthrough`, `clientSideAvailability`, `migration`, segment target and segment rule —
+and leave everything else (including all JSON data values: variations, clause values) in place.
+Reading the pruned document gives the same result (value or error) as reading the original. -/
+
+/-- Keep the members with a known name, rewriting each kept value with `sub name`. -/
+def pruneMembers (known : List String) (sub : String → J → J) (kvs : List (String × J)) :
+    List (String × J) :=
+  kvs.filterMap fun kv => if kv.1 ∈ known then some (kv.1, sub kv.1 kv.2) else none
+
+def pruneObj (known : List String) (sub : String → J → J) : J → J
+  | .obj kvs => .obj (pruneMembers known sub kvs)
+  | v => v
+
+def pruneArr (g : J → J) : J → J
+  | .arr xs => .arr (xs.map g)
+  | v => v
+
+/-- No nested schema below this member. -/
+def keep : String → J → J := fun _ v => v
+
+theorem objLoop_prune {σ} (h : σ → String → J → Codec.D σ) (known : List String) (sub : String → J → J)
+    (hunk : ∀ n, n ∉ known → ∀ s v, h s n v = pure s)
+    (hsub : ∀ n s v, h s n (sub n v) = h s n v) (init : σ) (kvs : List (String × J)) :
+    Codec.objLoop h init (pruneMembers known sub kvs) = Codec.objLoop h init kvs := by
+  induction kvs generalizing init with
+  | nil => rfl
+  | cons kv rest ih =>
+    obtain ⟨n, v⟩ := kv
+    by_cases hk : n ∈ known
+    · have : pruneMembers known sub ((n, v) :: rest) = (n, sub n v) :: pruneMembers known sub rest := by
+        simp [pruneMembers, hk]
+      rw [this, objLoop_cons, objLoop_cons, hsub]
+      congr 1; funext s; exact ih s
+    · have : pruneMembers known sub ((n, v) :: rest) = pruneMembers known sub rest := by
+        simp [pruneMembers, hk]
+      rw [this, objLoop_cons, hunk n hk]
+      exact ih init
+
+theorem mapM_map_congr {α β} (f : α → Codec.D β) (g : α → α) (hg : ∀ x, f (g x) = f x) (xs : List α) :
+    (xs.map g).mapM f = xs.mapM f := by
+  induction xs with
+  | nil => rfl
+  | cons x xs ih => rw [List.map_cons, List.mapM_cons, List.mapM_cons, hg, ih]
+
+def prunePrereq : J → J := pruneObj prereqKnown keep
+def pruneTarget : J → J := pruneObj targetKnown keep
+def pruneClause : J → J := pruneObj clauseKnown keep
+def pruneWV : J → J := pruneObj wvKnown keep
+def subRollout (n : String) (v : J) : J := if n = "variations" then pruneArr pruneWV v else v
+def pruneRollout : J → J := pruneObj rolloutKnown subRollout
+def subVR (n : String) (v : J) : J := if n = "rollout" then pruneRollout v else v
+def pruneVR : J → J := pruneObj vrKnown subVR
+def subRule (n : String) (v : J) : J :=
+  if n = "clauses" then pruneArr pruneClause v else if n = "rollout" then pruneRollout v else v
+def pruneRule : J → J := pruneObj ruleKnown subRule
+def pruneCSA : J → J := pruneObj csaKnown keep
+def pruneMigration : J → J := pruneObj migrationKnown keep
+def subFlag (n : String) (v : J) : J :=
+  if n = "prerequisites" then pruneArr prunePrereq v
+  else if n = "targets" then pruneArr pruneTarget v
+  else if n = "contextTargets" then pruneArr pruneTarget v
+  else if n = "rules" then pruneArr pruneRule v
+  else if n = "fallthrough" then pruneVR v
+  else if n = "clientSideAvailability" then pruneCSA v
+  else if n = "migration" then pruneMigration v
+  else v
+/-- The flag document with every unknown member removed, at every depth. -/
+def pruneFlag : J → J := pruneObj flagKnown subFlag
+
+def pruneSegTarget : J → J := pruneObj segTargetKnown keep
+def subSegRule (n : String) (v : J) : J := if n = "clauses" then pruneArr pruneClause v else v
+def pruneSegRule : J → J := pruneObj segRuleKnown subSegRule
+def subSegment (n : String) (v : J) : J :=
+  if n = "includedContexts" then pruneArr pruneSegTarget v
+  else if n = "excludedContexts" then pruneArr pruneSegTarget v
+  else if n = "rules" then pruneArr pruneSegRule v
+  else v
+/-- The segment document with every unknown member removed, at every depth. -/
+def pruneSegment : J → J := pruneObj segmentKnown subSegment
+
+theorem readPrereq_prune (x : J) : readPrereq (prunePrereq x) = readPrereq x := by
+  cases x with
+  | obj kvs =>
+    exact objLoop_prune prereqH prereqKnown keep (fun n hn s v => prereqH_unknown s n v hn)
+      (fun _ _ _ => rfl) _ kvs
+  | _ => rfl
+
+theorem readTarget_prune (x : J) : readTarget (pruneTarget x) = readTarget x := by
+  cases x with
+  | obj kvs =>
+    exact objLoop_prune targetH targetKnown keep (fun n hn s v => targetH_unknown s n v hn)
+      (fun _ _ _ => rfl) _ kvs
+  | _ => rfl
+
+theorem readClause_prune (x : J) : readClause (pruneClause x) = readClause x := by
+  cases x with
+  | obj kvs =>
+    show (objLoop clauseH _ (pruneMembers _ _ kvs) >>= _) = (objLoop clauseH _ kvs >>= _)
+    rw [objLoop_prune clauseH clauseKnown keep (fun n hn s v => clauseH_unknown s n v hn)
+      (fun _ _ _ => rfl)]
+  | _ => rfl
+
+theorem readWV_prune (x : J) : readWV (pruneWV x) = readWV x := by
+  cases x with
+  | obj kvs =>
+    exact objLoop_prune wvH wvKnown keep (fun n hn s v => wvH_unknown s n v hn) (fun _ _ _ => rfl) _ kvs
+  | _ => rfl
+
+theorem readSegTarget_prune (x : J) : readSegTarget (pruneSegTarget x) = readSegTarget x := by
+  cases x with
+  | obj kvs =>
+    exact objLoop_prune segTargetH segTargetKnown keep (fun n hn s v => segTargetH_unknown s n v hn)
+      (fun _ _ _ => rfl) _ kvs
+  | _ => rfl
+
+theorem readPrerequisites_prune (acc : List Prereq) (v : J) :
+    Codec.readPrerequisites acc (pruneArr prunePrereq v) = Codec.readPrerequisites acc v := by
+  cases v with
+  | arr xs =>
+    simp only [readPrerequisites_eq, pruneArr, rArrayOrNull, pure_bind,
+      mapM_map_congr readPrereq prunePrereq readPrereq_prune]
+  | _ => rfl
+
+theorem readTargets_prune (acc : List Target) (v : J) :
+    Codec.readTargets acc (pruneArr pruneTarget v) = Codec.readTargets acc v := by
+  cases v with
+  | arr xs =>
+    simp only [readTargets_eq, pruneArr, rArrayOrNull, pure_bind,
+      mapM_map_congr readTarget pruneTarget readTarget_prune]
+  | _ => rfl
+
+theorem readClauses_prune (acc : List Clause) (v : J) :
+    Codec.readClauses acc (pruneArr pruneClause v) = Codec.readClauses acc v := by
+  cases v with
+  | arr xs =>
+    simp only [readClauses_eq, pruneArr, rArrayOrNull, pure_bind,
+      mapM_map_congr readClause pruneClause readClause_prune]
+  | _ => rfl
+
+theorem readWeightedVariations_prune (acc : List WeightedVariation) (v : J) :
+    Codec.readWeightedVariations acc (pruneArr pruneWV v) = Codec.readWeightedVariations acc v := by
+  cases v with
+  | arr xs =>
+    simp only [readWeightedVariations_eq, pruneArr, rArray, pure_bind,
+      mapM_map_congr readWV pruneWV readWV_prune]
+  | _ => rfl
+
+theorem readSegmentTargets_prune (acc : List SegmentTarget) (v : J) :
+    Codec.readSegmentTargets acc (pruneArr pruneSegTarget v) = Codec.readSegmentTargets acc v := by
+  cases v with
+  | arr xs =>
+    simp only [readSegmentTargets_eq, pruneArr, rArrayOrNull, pure_bind,
+      mapM_map_congr readSegTarget pruneSegTarget readSegTarget_prune]
+  | _ => rfl
+
+theorem rolloutH_sub (n : String) (s : Rollout × String) (v : J) :
+    rolloutH s n (subRollout n v) = rolloutH s n v := by
+  unfold subRollout
+  split
+  · rename_i hn; subst hn
+    show (do let x ← readWeightedVariations s.1.variations _; pure ({ s.1 with variations := x }, s.2)) =
+      (do let x ← readWeightedVariations s.1.variations _; pure ({ s.1 with variations := x }, s.2))
+    rw [readWeightedVariations_prune]
+  · rfl
+
+theorem readRollout_prune (out : Rollout) (v : J) :
+    Codec.readRollout out (pruneRollout v) = Codec.readRollout out v := by
+  cases v with
+  | obj kvs =>
+    rw [readRollout_eq, readRollout_eq]
+    show (objLoop rolloutH _ (pruneMembers _ _ kvs) >>= _) = (objLoop rolloutH _ kvs >>= _)
+    rw [objLoop_prune rolloutH rolloutKnown subRollout (fun n hn s v => rolloutH_unknown s n v hn)
+      rolloutH_sub]
+  | _ => rfl
+
+theorem vrH_sub (n : String) (o : VariationOrRollout) (v : J) : vrH o n (subVR n v) = vrH o n v := by
+  unfold subVR
+  split
+  · rename_i hn; subst hn
+    show (do let x ← readRollout o.rollout _; pure { o with rollout := x }) =
+      (do let x ← readRollout o.rollout _; pure { o with rollout := x })
+    rw [readRollout_prune]
+  · rfl
+
+theorem readVariationOrRollout_prune (out : VariationOrRollout) (v : J) :
+    Codec.readVariationOrRollout out (pruneVR v) = Codec.readVariationOrRollout out v := by
+  cases v with
+  | obj kvs =>
+    exact objLoop_prune vrH vrKnown subVR (fun n hn s v => vrH_unknown s n v hn) vrH_sub _ kvs
+  | _ => rfl
+
+theorem ruleH_sub (n : String) (r : FlagRule) (v : J) : ruleH r n (subRule n v) = ruleH r n v := by
+  unfold subRule
+  split
+  · rename_i hn; subst hn
+    show (do let x ← readClauses r.clauses _; pure { r with clauses := x }) =
+      (do let x ← readClauses r.clauses _; pure { r with clauses := x })
+    rw [readClauses_prune]
+  · split
+    · rename_i hn; subst hn
+      show (do let x ← readRollout r.vr.rollout _; pure { r with vr := { r.vr with rollout := x } }) =
+        (do let x ← readRollout r.vr.rollout _; pure { r with vr := { r.vr with rollout := x } })
+      rw [readRollout_prune]
+    · rfl
+
+theorem readFlagRule_prune (x : J) : readFlagRule (pruneRule x) = readFlagRule x := by
+  cases x with
+  | obj kvs =>
+    exact objLoop_prune ruleH ruleKnown subRule (fun n hn s v => ruleH_unknown s n v hn) ruleH_sub _ kvs
+  | _ => rfl
+
+theorem readFlagRules_prune (acc : List FlagRule) (v : J) :
+    Codec.readFlagRules acc (pruneArr pruneRule v) = Codec.readFlagRules acc v := by
+  cases v with
+  | arr xs =>
+    simp only [readFlagRules_eq, pruneArr, rArrayOrNull, pure_bind,
+      mapM_map_congr readFlagRule pruneRule readFlagRule_prune]
+  | _ => rfl
+
+theorem readClientSideAvailability_prune (out : ClientSideAvailability) (v : J) :
+    Codec.readClientSideAvailability out (pruneCSA v) = Codec.readClientSideAvailability out v := by
+  cases v with
+  | obj kvs =>
+    rw [readClientSideAvailability_eq, readClientSideAvailability_eq]
+    exact objLoop_prune csaH csaKnown keep (fun n hn s v => csaH_unknown s n v hn) (fun _ _ _ => rfl) _ kvs
+  | _ => rfl
+
+theorem readMigration_prune (v : J) : Codec.readMigration (pruneMigration v) = Codec.readMigration v := by
+  cases v with
+  | obj kvs =>
+    rw [readMigration_eq, readMigration_eq]
+    show (objLoop migrationH _ (pruneMembers _ _ kvs) >>= _) = (objLoop migrationH _ kvs >>= _)
+    rw [objLoop_prune migrationH migrationKnown keep (fun n hn s v => migrationH_unknown s n v hn)
+      (fun _ _ _ => rfl)]
+  | _ => rfl
+
+theorem readFlagProp_sub (n : String) (a : FlagAcc) (v : J) :
+    readFlagProp a n (subFlag n v) = readFlagProp a n v := by
+  unfold subFlag
+  split
+  · rename_i hn; subst hn
+    show (do let x ← readPrerequisites a.flag.prerequisites _; pure { a with flag := { a.flag with prerequisites := x } }) =
+      (do let x ← readPrerequisites a.flag.prerequisites _; pure { a with flag := { a.flag with prerequisites := x } })
+    rw [readPrerequisites_prune]
+  split
+  · rename_i hn; subst hn
+    show (do let x ← readTargets a.flag.targets _; pure { a with flag := { a.flag with targets := x } }) =
+      (do let x ← readTargets a.flag.targets _; pure { a with flag := { a.flag with targets := x } })
+    rw [readTargets_prune]
+  split
+  · rename_i hn; subst hn
+    show (do let x ← readTargets a.flag.contextTargets _; pure { a with flag := { a.flag with contextTargets := x } }) =
+      (do let x ← readTargets a.flag.contextTargets _; pure { a with flag := { a.flag with contextTargets := x } })
+    rw [readTargets_prune]
+  split
+  · rename_i hn; subst hn
+    show (do let x ← readFlagRules a.flag.rules _; pure { a with flag := { a.flag with rules := x } }) =
+      (do let x ← readFlagRules a.flag.rules _; pure { a with flag := { a.flag with rules := x } })
+    rw [readFlagRules_prune]
+  split
+  · rename_i hn; subst hn
+    show (do let x ← readVariationOrRollout a.flag.fallthrough _; pure { a with flag := { a.flag with fallthrough := x } }) =
+      (do let x ← readVariationOrRollout a.flag.fallthrough _; pure { a with flag := { a.flag with fallthrough := x } })
+    rw [readVariationOrRollout_prune]
+  split
+  · rename_i hn; subst hn
+    show (do let x ← readClientSideAvailability a.flag.fmeta.clientSide _
+             pure { a with flag := { a.flag with fmeta := { a.flag.fmeta with clientSide := x } } }) =
+      (do let x ← readClientSideAvailability a.flag.fmeta.clientSide _
+          pure { a with flag := { a.flag with fmeta := { a.flag.fmeta with clientSide := x } } })
+    rw [readClientSideAvailability_prune]
+  split
+  · rename_i hn; subst hn
+    show (do let x ← readMigration _
+             pure { a with flag := { a.flag with fmeta := { a.flag.fmeta with migration := x } } }) =
+      (do let x ← readMigration _
+          pure { a with flag := { a.flag with fmeta := { a.flag.fmeta with migration := x } } })
+    rw [readMigration_prune]
+  · rfl
+
+/-- **Unknown properties are ignored at any depth (flags).**  Deleting every member the decoder
+does not know — at the top level and inside every nested object, all at once — changes neither the
+flag that is read nor whether the document is rejected. -/
+theorem unknown_ignored_everywhere_flag (doc : J) : Codec.readFlag (pruneFlag doc) = Codec.readFlag doc := by
+  cases doc with
+  | obj kvs =>
+    show (objLoop readFlagProp {} (pruneMembers _ _ kvs) >>= _) = (objLoop readFlagProp {} kvs >>= _)
+    rw [objLoop_prune readFlagProp flagKnown subFlag (fun n hn s v => readFlagProp_unknown s n v hn)
+      readFlagProp_sub]
+  | _ => rfl
+
+theorem unknown_ignored_everywhere_decodeFlag (rx : RegexOracle) (doc : J) :
+    Codec.decodeFlag rx (pruneFlag doc) = Codec.decodeFlag rx doc := by
+  unfold decodeFlag; rw [unknown_ignored_everywhere_flag]
+
+theorem segRuleH_sub (n : String) (s : SegmentRule × String) (v : J) :
+    segRuleH s n (subSegRule n v) = segRuleH s n v := by
+  unfold subSegRule
+  split
+  · rename_i hn; subst hn
+    show (do let x ← readClauses s.1.clauses _; pure ({ s.1 with clauses := x }, s.2)) =
+      (do let x ← readClauses s.1.clauses _; pure ({ s.1 with clauses := x }, s.2))
+    rw [readClauses_prune]
+  · rfl
+
+theorem readSegRule_prune (x : J) : readSegRule (pruneSegRule x) = readSegRule x := by
+  cases x with
+  | obj kvs =>
+    show (objLoop segRuleH _ (pruneMembers _ _ kvs) >>= _) = (objLoop segRuleH _ kvs >>= _)
+    rw [objLoop_prune segRuleH segRuleKnown subSegRule (fun n hn s v => segRuleH_unknown s n v hn)
+      segRuleH_sub]
+  | _ => rfl
+
+theorem readSegmentRules_prune (acc : List SegmentRule) (v : J) :
+    Codec.readSegmentRules acc (pruneArr pruneSegRule v) = Codec.readSegmentRules acc v := by
+  cases v with
+  | arr xs =>
+    simp only [readSegmentRules_eq, pruneArr, rArrayOrNull, pure_bind,
+      mapM_map_congr readSegRule pruneSegRule readSegRule_prune]
+  | _ => rfl
+
+theorem readSegmentProp_sub (n : String) (s : Segment) (v : J) :
+    readSegmentProp s n (subSegment n v) = readSegmentProp s n v := by
+  unfold subSegment
+  split
+  · rename_i hn; subst hn
+    show (do let x ← readSegmentTargets s.includedContexts _; pure { s with includedContexts := x }) =
+      (do let x ← readSegmentTargets s.includedContexts _; pure { s with includedContexts := x })
+    rw [readSegmentTargets_prune]
+  split
+  · rename_i hn; subst hn
+    show (do let x ← readSegmentTargets s.excludedContexts _; pure { s with excludedContexts := x }) =
+      (do let x ← readSegmentTargets s.excludedContexts _; pure { s with excludedContexts := x })
+    rw [readSegmentTargets_prune]
+  split
+  · rename_i hn; subst hn
+    show (do let x ← readSegmentRules s.rules _; pure { s with rules := x }) =
+      (do let x ← readSegmentRules s.rules _; pure { s with rules := x })
+    rw [readSegmentRules_prune]
+  · rfl
+
+/-- **Unknown properties are ignored at any depth (segments).** -/
+theorem unknown_ignored_everywhere_segment (doc : J) :
+    Codec.readSegment (pruneSegment doc) = Codec.readSegment doc := by
+  cases doc with
+  | obj kvs =>
+    exact objLoop_prune readSegmentProp segmentKnown subSegment
+      (fun n hn s v => readSegmentProp_unknown s n v hn) readSegmentProp_sub _ kvs
+  | _ => rfl
+
+/-- Non-vacuity: unknown members at four depths disappear, known ones and data values stay. -/
+example : pruneFlag (.obj [("key", .str "f"), ("x", .num 1),
+      ("rules", .arr [.obj [("id", .str "r"), ("y", .null),
+        ("clauses", .arr [.obj [("op", .str "in"), ("z", .arr []), ("values", .arr [.obj [("w", .num 1)]])]]),
+        ("rollout", .obj [("variations", .arr [.obj [("weight", .num 1), ("u", .str "")]]), ("t", .null)])]])]) =
+    .obj [("key", .str "f"),
+      ("rules", .arr [.obj [("id", .str "r"),
+        ("clauses", .arr [.obj [("op", .str "in"), ("values", .arr [.obj [("w", .num 1)]])]]),
+        ("rollout", .obj [("variations", .arr [.obj [("weight", .num 1)]])])]])] := by
+  rfl
+
+#print axioms error_zero
+#print axioms success_is_preprocessed_decoding
+#print axioms hook_leaves_destination
+#print axioms decode_total_entry
+#print axioms readFlag_error_iff
+#print axioms error_zero_segment
+#print axioms hook_leaves_destination_segment
+#print axioms decode_total_entry_segment
+#print axioms success_is_preprocessed_decoding_segment
+#print axioms reader_paths_expose_partial
+#print axioms objLoop_drop_default
+#print axioms prereqH_default
+#print axioms targetH_default
+#print axioms clauseH_default
+#print axioms wvH_default
+#print axioms rolloutH_default
+#print axioms vrH_default
+#print axioms ruleH_default
+#print axioms csaH_default
+#print axioms segTargetH_default
+#print axioms segRuleH_default
+#print axioms omitted_is_default_prereq
+#print axioms omitted_is_default_target
+#print axioms omitted_is_default_clause
+#print axioms omitted_is_default_weightedVariation
+#print axioms omitted_is_default_rollout
+#print axioms omitted_is_default_variationOrRollout
+#print axioms omitted_is_default_rule
+#print axioms omitted_is_default_clientSideAvailability
+#print axioms omitted_is_default_segmentTarget
+#print axioms omitted_is_default_segmentRule
+#print axioms omitted_is_default_flag_rule_clause
+#print axioms objLoop_prune
+#print axioms mapM_map_congr
+#print axioms readPrereq_prune
+#print axioms readTarget_prune
+#print axioms readClause_prune
+#print axioms readWV_prune
+#print axioms readSegTarget_prune
+#print axioms readPrerequisites_prune
+#print axioms readTargets_prune
+#print axioms readClauses_prune
+#print axioms readWeightedVariations_prune
+#print axioms readSegmentTargets_prune
+#print axioms rolloutH_sub
+#print axioms readRollout_prune
+#print axioms vrH_sub
+#print axioms readVariationOrRollout_prune
+#print axioms ruleH_sub
+#print axioms readFlagRule_prune
+#print axioms readFlagRules_prune
+#print axioms readClientSideAvailability_prune
+#print axioms readMigration_prune
+#print axioms readFlagProp_sub
+#print axioms unknown_ignored_everywhere_flag
+#print axioms unknown_ignored_everywhere_decodeFlag
+#print axioms segRuleH_sub
+#print axioms readSegRule_prune
+#print axioms readSegmentRules_prune
+#print axioms readSegmentProp_sub
+#print axioms unknown_ignored_everywhere_segment
 
 end LD.C17
